@@ -195,6 +195,8 @@ struct Tr<'a> {
     u2: bool,
     u3: bool,
     unspecified: Option<&'static str>,
+    /// for the top-level sequence: (node index, start, end) of the regex text of each token
+    token_slices: Vec<(usize, usize, usize)>,
 }
 
 fn is_optional(n: &Node) -> bool {
@@ -232,6 +234,7 @@ impl<'a> Tr<'a> {
             let solid_l = ctx.solid_left || toks[..k].iter().any(|j| !is_optional(&seq[*j]));
             let solid_r = ctx.solid_right || toks[k + 1..].iter().any(|j| !is_optional(&seq[*j]));
             let own = pos_of(k, n);
+            let slice_start = out.len();
             match &node.kind {
                 Kind::Flag(_) => unreachable!(),
                 Kind::Lit(t) => {
@@ -300,6 +303,9 @@ impl<'a> Tr<'a> {
                     }
                     self.regex_ci = saved_regex_ci;
                 },
+            }
+            if top {
+                self.token_slices.push((i, slice_start, out.len()));
             }
         }
     }
@@ -407,7 +413,7 @@ impl<'a> Tr<'a> {
 
 /// Reference language of an expression as an anchored regular expression, or unspecified.
 pub fn reference(seq: &[Node], dev: &Deviations) -> Spec {
-    let mut tr = Tr { dev, ci: false, regex_ci: false, u2: false, u3: false, unspecified: None };
+    let mut tr = Tr { dev, ci: false, regex_ci: false, u2: false, u3: false, unspecified: None, token_slices: vec![] };
     let mut out = String::from("^");
     let ctx = Ctx { left: Tri::No, right: Tri::No, solid_left: false, solid_right: false, superpos: None };
     tr.seq(seq, &ctx, true, &mut out);
@@ -483,4 +489,18 @@ pub fn mirror_regex(seq: &[Node]) -> String {
         Spec::Specified(r) => r.regex,
         Spec::Unspecified(_) => "^[a&&b]$".to_string(),
     }
+}
+
+/// Reference sub-languages of the top-level tokens: for each non-flag node of the top-level
+/// sequence (by node index) the reference regex text of that token in its context (no anchors).
+/// None if the expression is unspecified.
+pub fn token_regexes(seq: &[Node], dev: &Deviations) -> Option<Vec<(usize, String)>> {
+    let mut tr = Tr { dev, ci: false, regex_ci: false, u2: false, u3: false, unspecified: None, token_slices: vec![] };
+    let mut out = String::new();
+    let ctx = Ctx { left: Tri::No, right: Tri::No, solid_left: false, solid_right: false, superpos: None };
+    tr.seq(seq, &ctx, true, &mut out);
+    if tr.unspecified.is_some() {
+        return None;
+    }
+    Some(tr.token_slices.iter().map(|(i, a, b)| (*i, out[*a..*b].to_string())).collect())
 }
